@@ -232,7 +232,9 @@ def run_property(prop, tier, jobs, kinds, text, bounds, outside=(), extra_assump
             if r["name"].startswith("ExtendTransitions") or r["name"].startswith("calendar"):
                 # the model is over uninterpreted calendar / rule functions: confirm on a panel of concrete footers loaded natively
                 w = None; key = None; case = {"footer_panel": True}
-                if r["name"].startswith("ExtendTransitions"):
+                if r["name"].startswith("ExtendTransitions:AllYearDST"):
+                    w = tz_replay.check_allyear_panel(); case = {"allyear_panel": True}
+                elif r["name"].startswith("ExtendTransitions"):
                     if fobj["desc"].startswith("seam: no rule instant"):
                         w = tz_replay.check_newyear_spill(); key = "seam:rule-instant-before-new-year"; case = {"newyear_spill": True}
                     elif fobj["desc"].startswith("seam:"):
@@ -283,6 +285,7 @@ def run_property(prop, tier, jobs, kinds, text, bounds, outside=(), extra_assump
 
 def replay_case(case):
     if "transoffset" in case: return tz_replay.check_transoffset(case["transoffset"], case["form"])
+    if case.get("allyear_panel"): return tz_replay.check_allyear_panel()
     if case.get("glue_panel"):
         from . import c18
         return c18.glue_panel()
